@@ -742,7 +742,7 @@ func c20Probe(x *h.Ctx, c c20Case, b c20Boot, strict bool) {
 	http.DefaultTransport = ldSrv
 	_, unlistedErr := ldEngine.DocumentLoader().LoadDocument(c20UnlistedCtx)
 	unlistedHits := ldSrv.rec.take()
-	_, _ = ldEngine.DocumentLoader().LoadDocument(c20AllowedCtx)
+	_, allowedErr := ldEngine.DocumentLoader().LoadDocument(c20AllowedCtx)
 	allowedHits := ldSrv.rec.take()
 	_, embeddedErr := ldEngine.DocumentLoader().LoadDocument("https://nuts.nl/credentials/v1")
 	embeddedHits := ldSrv.rec.take()
@@ -766,14 +766,14 @@ func c20Probe(x *h.Ctx, c c20Case, b c20Boot, strict bool) {
 		if len(unlistedHits) > 0 || unlistedErr == nil {
 			x.Violate("strict-capability-present:jsonld-unlisted-remote-context", "strict mode (allowlist=%s): loading an unlisted remote context caused outbound requests %v (err=%v)", c.val("allowlist"), unlistedHits, unlistedErr)
 		}
-		if c.val("allowlist") == "custom" && len(allowedHits) == 0 {
-			x.Violate("strict-allowlisted-context-refused", "strict mode: context %s is on jsonld.contexts.remoteallowlist but was not fetched", c20AllowedCtx)
+		if c.val("allowlist") == "custom" && allowedErr != nil {
+			x.Violate("strict-allowlisted-context-refused", "strict mode: context %s is on jsonld.contexts.remoteallowlist but was not loaded: %v", c20AllowedCtx, allowedErr)
 		}
-		if c.val("allowlist") != "custom" && len(allowedHits) > 0 {
+		if c.val("allowlist") != "custom" && (len(allowedHits) > 0 || allowedErr == nil) {
 			x.Violate("strict-capability-present:jsonld-unlisted-remote-context", "strict mode (allowlist=%s): %s is not listed but was fetched", c.val("allowlist"), c20AllowedCtx)
 		}
-	} else if len(unlistedHits) == 0 {
-		x.Violate("nonstrict-capability-absent:jsonld-remote-context", "non-strict mode: unlisted remote context was not fetched (err=%v)", unlistedErr)
+	} else if unlistedErr != nil {
+		x.Violate("nonstrict-capability-absent:jsonld-remote-context", "non-strict mode: unlisted remote context was not loaded (err=%v requests=%v)", unlistedErr, unlistedHits)
 	}
 	if embeddedErr != nil || len(embeddedHits) > 0 {
 		x.Violate("embedded-context-not-local:"+mode, "locally mapped context https://nuts.nl/credentials/v1: err=%v outbound=%v", embeddedErr, embeddedHits)
